@@ -46,7 +46,7 @@ CLAIMS = {
     "C13": ("other", "4.C13", "provenance terms of the defaults + build contract of the 8 prelude build methods by abstract interpretation (generic builder summarised) + who-writes over functions reachable from build",
             "Decides: defaults from one now (+1h), exp removed iff acknowledged and at build time, flags persist across builds, duplicate error first, that building never drains / caches builder state (a two-claim builder's claims are the same after build_payload_from_claims on every path), and that the wrapped GenericBuilder cannot be reached through PasetoBuilder (private field, no public function - Deref included - involving both types). Rendered values are not decided.",
             "trusted: time crate rendering; HashMap semantics"),
-    "C14": ("other", "4.C14", "constant tables + per-impl serialisation shape + abstract interpretation of set_claim over the JSON partition, of the payload pipeline and of wrap_claims / wrap_value on concrete small inputs (lazy iterators, concrete maps)",
+    "C14": ("other", "4.C14", "abstract interpretation of the 17 claim constructors (key stored on every constructing path) + per-impl serialisation shape + abstract interpretation of set_claim and the claim mutators on concrete maps over the JSON partition, of the payload on two-claim builders under every registered key (entries and payload text) and of wrap_claims / wrap_value on concrete small inputs (lazy iterators, concrete maps)",
             "Decides the structural conditions of claim fidelity: registered keys, one-entry serialisation, storage under the claim's key (last wins), unwrapping exactly the one-entry map, no entry dropped / added / re-keyed / transformed at build time, parser returns the parsed payload unmodified. serde_json value round trips are trusted.",
             "trusted: serde_json round trips JSON values; HashMap::insert replaces"),
     "C15": ("other", "4.C15", "behaviour table of verify_claims by abstract interpretation on a concrete parser configuration (expected {aud, exp}, validators {exp, nbf}) over the JSON partition + who-writes over functions reachable from parse",
@@ -58,13 +58,13 @@ CLAIMS = {
     "C18": ("other", "4.C18", "constant table + abstract interpretation of the reserved-key check and of all CustomClaim / time-claim constructors",
             "Decides: reserved table = the 7 registered keys; check is exact on the unmodified key and gates all three constructor forms which store the given key; time constructors accept iff iso8601::datetime accepts and keep the value verbatim. The acceptance set of iso8601 is trusted.",
             "trusted: iso8601::datetime acceptance set; slice contains / str equality exact"),
-    "C17": ("proof", "4.C17", "abstract interpretation of set_claim / verify_ready_to_build + who-writes (monotone flag invariant) + CFG dominance in the 8 build methods",
-            "The history quantifier is discharged by an invariant (flag set <=> a key was inserted twice; flag set => build fails first) whose preservation by every method is checked; all obligations must be discharged.",
+    "C17": ("proof", "4.C17", "call-sequence contracts: PasetoBuilder driven through its public API from default() by abstract interpretation with the wrapped GenericBuilder summarised (50 sequences per protocol in the quick tier, every sequence up to a length against a reference model in the thorough tier); field-level rules (set_claim / verify_ready_to_build, who-writes, CFG dominance in the 8 build methods) as second opinion",
+            "Every enumerated call sequence must behave as the property states (duplicate -> Err(Duplicate(that key)) and nothing built, on that and every later build, also across a successful build; single claims build); when the interpreter is undecided the history quantifier is discharged by the field-level invariant (flag set <=> a key was inserted twice; flag set => build fails first) whose preservation by every method is checked; all obligations must be discharged.",
             "trusted: HashSet::insert semantics; get_key purity for user-defined claims"),
     "C19": ("proof", "4.C19", "type checker as oracle over a generated compile-fail / compile-pass matrix + closed-world impl-header audit over the driver's facts",
             "Every generated mixing program must be rejected by rustc inside its function with a type / bound / method error and every matching twin must type-check; the audit covers all programs: every way to obtain or consume a key type is in a frozen table. All obligations must be discharged.",
             "trusted: rustc; coherence (the crate's impl set is closed)"),
-    "C20": ("proof", "4.C20", "type checker as oracle over the feature lattice (cargo check of a generated client) + cfg lint + API-growth comparison of driver facts",
+    "C20": ("proof", "4.C20", "type checker as oracle over the feature lattice (cargo check of a generated client with auto-trait and inference witnesses) + cfg lint + API-growth comparison of driver facts + header table per configuration",
             "Every configuration of the tier is type-checked (quick: singletons, pairs, full set, specials; thorough: all 255 subsets x 3 layers); obligations = configurations + cfg predicates + api items, all must be discharged. The run-time clause (round trips) is not decided.",
             "trusted: rustc/cargo; the generated smoke client stands for client code"),
 }
